@@ -95,7 +95,7 @@ class Evidence:
             'vacuity_canary': {'functions_forced_to_fail': self.canaries, 'meaning': 'assert(false) spliced at the start of every contracted body failed in each of them'},
             'bounded_stand_ins': self.bounded,
             'known_findings_confirmed': self.known_findings,
-            'rule': 'obligations = for every function under contract tagged with this property: 1 (Verus safety/termination/callee-precondition obligations of the body, reported as one) + one per tagged ensures clause; + proved prelude lemmas; + Kani complete (loop-free, full-domain) harnesses. Bounded Kani harnesses are listed under bounded_stand_ins and never counted.',
+            'rule': 'obligations = for every function under contract tagged with this property: 1 (Verus safety/termination/callee-precondition obligations of the body, reported as one) + one per tagged ensures clause + one per tagged in-body obligation (an assert at a program point that is part of the contract); + proved prelude lemmas; + Kani complete (loop-free, full-domain) harnesses. Bounded Kani harnesses are listed under bounded_stand_ins and never counted.',
             'exit_status': rc,
             'notes': self.notes,
         }
